@@ -128,3 +128,13 @@ H("c02_operator_tables", "c02_prec::c02_operator_tables", ["C02"],
   ["BinaryOperator::precedes_unary_expression", "BinaryOperator::is_left_associative", "BinaryOperator::is_right_associative",
    "BinaryOperator::to_str", "BinaryOperator::precedes"],
   "all 16 operators, all 256 operator pairs", mode="lean", timeout_s=600, replay="operator_tables", assumptions=[PREC_NOTE])
+
+for n in (0, 1, 2):
+    H("c08_ev_if_%d" % n, "c08_steps::c08_ev_if_%d" % n, ["C08", "C01"], ["Evaluator::evaluate_if", "LuaValue::is_truthy"],
+      "if-expression with %d elseif branch(es); every child nil/false/true/any f64/string(kind)/table/function, exactly known or Unknown" % n,
+      mode="lean", timeout_s=900, mem_gb=16, replay="ev_if_%d" % n, stubs=[EVAL_STUB, SE_STUB], assumptions=[NATIVE_NOTE],
+      tier="quick" if n else "thorough")
+    H("c08_se_if_%d" % n, "c08_steps::c08_se_if_%d" % n, ["C08", "C01"], ["Evaluator::if_expression_has_side_effects", "LuaValue::is_truthy"],
+      "if-expression with %d elseif branch(es); every child's value kind, knownness, real effect and analysis answer symbolic (answer never misses an effect)" % n,
+      mode="lean", timeout_s=900, mem_gb=16, replay="se_if_%d" % n, stubs=[EVAL_STUB, SE_STUB], assumptions=[NATIVE_NOTE],
+      tier="quick" if n == 2 else "thorough")
